@@ -30,6 +30,8 @@ def run(spec):
                                      sample=f"crosshair check units.c19_harness.{spec['func']}")
     if spec["kind"] == "memo":
         return memo_instances(spec)
+    if spec["kind"] == "dagtraverser":
+        return dagtraverser_kwargs(spec)
     return dispatch_tables(spec)
 
 
@@ -63,6 +65,96 @@ def memo_instances(spec):
         out = map_expr_dag(Scale(k), e, compress=spec.get("compress", True))
         want = ufl.replace(e, {f: k * f, g: k * g}) if False else (k * f) * (k * g) + ufl.sin(k * f) * (k * f) + (k * g) / (1 + (k * f) * (k * f))
         res.append(tv.compare(f"{spec['name']}/k={k}", want, out, Env(), timeout=60, check_structure=False))
+    return res
+
+
+def dagtraverser_kwargs(spec):
+    """The real DAGTraverser.__call__ memoisation with keyword contexts: a traverser whose handlers visit shared
+    sub-expressions under different keyword arguments (different names with equal values, equal names with different
+    values, subsets, both orders) must return what the plain recursive application of the same rules returns; one
+    instance is also reused for several roots and top-level contexts (history).  z3 decides value equality."""
+    from functools import singledispatchmethod
+
+    import ufl
+    from ufl.classes import Division, Expr, Power, Product, Sin, Sum, Terminal
+    from ufl.corealg.dag_traverser import DAGTraverser
+
+    from checks.common import coef, mesh
+    from vlib import tv
+    from vlib.denote import Env
+
+    def leaf(o, invert=False, negate=False, scale=1):
+        r = o
+        if invert:
+            r = 1 / (2 + r * r)
+        if negate:
+            r = -r
+        if scale != 1:
+            r = scale * r
+        return r
+
+    def nd(kw):
+        # pass only the non-default keywords down (this is what makes contexts with equal value tuples possible)
+        d = {}
+        if kw.get("invert"):
+            d["invert"] = True
+        if kw.get("negate"):
+            d["negate"] = True
+        if kw.get("scale", 1) != 1:
+            d["scale"] = kw["scale"]
+        return d
+
+    def rules(rec, o, kw):
+        if isinstance(o, Terminal):
+            return leaf(o, **kw) if o.ufl_shape == () and not isinstance(o, ufl.classes.ConstantValue) else o
+        a = o.ufl_operands
+        if isinstance(o, Sum):
+            return rec(a[0], **nd(kw)) + rec(a[1], **nd(kw))
+        if isinstance(o, Product):
+            return rec(a[0], negate=True) * rec(a[1], invert=True)
+        if isinstance(o, Division):
+            return rec(a[0], scale=2) / (3 + rec(a[1], scale=3) ** 2)
+        if isinstance(o, Power):
+            return rec(a[0], invert=True, negate=True) ** a[1]
+        if isinstance(o, Sin):
+            return ufl.sin(rec(a[0], negate=True, invert=True))
+        raise TypeError(type(o).__name__)
+
+    class T(DAGTraverser):
+        @singledispatchmethod
+        def process(self, o, **kw):
+            return super().process(o)
+
+        @process.register(Expr)
+        def _(self, o, **kw):
+            return rules(self, o, kw)
+
+    def plain(o, **kw):
+        return rules(plain, o, kw)
+
+    dom = mesh("triangle", 2)
+    f, g = coef(dom, (), count=1910), coef(dom, (), count=1911)
+    p = f + g
+    q = f * g
+    roots = {
+        "shared_two_names": p * p,                     # negate=True and invert=True on the same node
+        "shared_scale_values": p / p,                  # scale=2 and scale=3
+        "subset_and_order": p ** 2 + ufl.sin(p) + p,   # {invert,negate}, {negate,invert}, {}
+        "nested": (p * p) * (p / p) + q * (q + p),
+        "terminal_contexts": f * f + f / f + f ** 2,
+    }
+    res = []
+    tops = [dict(), dict(negate=True), dict(invert=True), dict(scale=2), dict(scale=True)]
+    shared = T(compress=spec.get("compress", True))
+    for name, e in roots.items():
+        for top in tops:
+            want = plain(e, **top)
+            fresh = T(compress=spec.get("compress", True))(e, **top)
+            res.append(tv.compare(f"{spec['name']}/{name}/{sorted(top.items())}/fresh", want, fresh, Env(), timeout=60,
+                                  check_structure=False))
+            reused = shared(e, **top)
+            res.append(tv.compare(f"{spec['name']}/{name}/{sorted(top.items())}/reused-instance", want, reused, Env(), timeout=60,
+                                  check_structure=False))
     return res
 
 
@@ -167,6 +259,8 @@ def specs(tier):
     S.append(dict(name="dispatch/Transformer", kind="tables", base="tr"))
     S.append(dict(name="memoized-handler/instances", kind="memo", compress=True))
     S.append(dict(name="memoized-handler/instances-nocompress", kind="memo", compress=False))
+    S.append(dict(name="dagtraverser-kwargs", kind="dagtraverser", compress=True, task_timeout=900))
+    S.append(dict(name="dagtraverser-kwargs-nocompress", kind="dagtraverser", compress=False, task_timeout=900))
     for b in ("mf", "tr"):
         for d in ("parent_first", "child_first"):
             S.append(dict(name=f"dispatch/{'MultiFunction' if b == 'mf' else 'Transformer'}/derived-{d}", kind="tables", base=b, derived=d))
